@@ -171,6 +171,9 @@ func (s *SSH) Input(data string) {
 }
 
 func (s *SSH) rec(text, class, dev string, accepted bool) {
+	if dev == DevError && s.curDev == DevAuthz {
+		dev = s.curDev // the kind as injected (handled like an error answer)
+	}
 	s.Trans = append(s.Trans, Rec{Batch: s.batch, Point: s.point, Text: text, Class: class, Dev: dev, Accepted: accepted})
 }
 
@@ -272,8 +275,8 @@ func (s *SSH) line(l string) {
 	class := s.classify(l)
 	dev := s.Dev[s.point]
 	s.curDev = dev
-	if dev == DevError1 {
-		dev = DevError // handled like an error answer, with the one-line text (errText)
+	if dev == DevError1 || dev == DevAuthz {
+		dev = DevError // handled like an error answer, with its own text (errText)
 	}
 	// generic deviations
 	switch dev {
